@@ -15,6 +15,7 @@ ASSUMPTIONS = ["query list 1..2 particles, neighbour list 2..3, tomogram labels 
                "rigid motion: rotation about the z axis by a symbolic angle plus a symbolic translation (quick); arbitrary zxz rotation (thorough)"]
 OUTSIDE = ["lists with more than 3 particles per tomogram", "optimality of the KD-tree itself (the specification stub IS brute force): what is checked of the repository is the per-tomogram split, index->id mapping, scaling and frames around it",
            "float rounding (A0)"]
+WITNESS_ONLY = ['quick tier: the two-run rigid-motion comparison of distance / angular distance / relative orientation (h_rigid without heavy=True) is evaluated on concrete witness inputs chosen by the solver (4 sign variants); the deciding argument is h_nn (all inputs) + h_motion_lemmas; the symbolic two-run comparison runs in the thorough tier']
 BOUNDS = {"quick": {"query": 2, "neighbours": 3}, "thorough": {"query": 2, "neighbours": 3}}
 EXPECTED_EXCEPTIONS = ()
 OPTS = {"qtimeout": 8.0, "otimeout": 40.0, "max_paths": 450}
